@@ -210,8 +210,12 @@ type vSafeBuf struct {
 	buf bytes.Buffer
 }
 
-func (b *vSafeBuf) Write(p []byte) (int, error) { b.mu.Lock(); defer b.mu.Unlock(); return b.buf.Write(p) }
-func (b *vSafeBuf) String() string               { b.mu.Lock(); defer b.mu.Unlock(); return b.buf.String() }
+func (b *vSafeBuf) Write(p []byte) (int, error) {
+	b.mu.Lock()
+	defer b.mu.Unlock()
+	return b.buf.Write(p)
+}
+func (b *vSafeBuf) String() string { b.mu.Lock(); defer b.mu.Unlock(); return b.buf.String() }
 
 type vStreamWriter struct {
 	hdr  http.Header
@@ -250,7 +254,12 @@ func (n *vNode) stream(s vSession, auth, lastseen string, until func(lines []rob
 	// the handler's helper goroutines (getMessages, pingTicker) end asynchronously after the handler
 	// returned; wait for them so that a later Stop() does not close the stream under a live reader
 	defer func() {
-		for k := 0; k < 20000 && runtime.NumGoroutine() > g0; k++ {
+		buf := make([]byte, 1<<20)
+		for k := 0; k < 20000; k++ {
+			// (the goroutine count alone is not reliable: raft's own goroutines come and go)
+			if runtime.NumGoroutine() <= g0 && !strings.Contains(string(buf[:runtime.Stack(buf, true)]), "(*HTTP).getMessages") {
+				break
+			}
 			outputStream.InterruptGetNext()
 			time.Sleep(100 * time.Microsecond)
 		}
